@@ -14,6 +14,7 @@ import Mathlib.Tactic.NormNum
 -/
 set_option linter.unusedSectionVars false
 set_option linter.unusedVariables false
+set_option linter.unusedSimpArgs false
 namespace EqsigVerif.Model.Single
 open EqsigVerif
 
@@ -219,5 +220,99 @@ theorem butterPad_eq_append (v : List ℚ) (mode : GibbsMode) (ge gr : ℕ) (hm 
         simp [a1, a2, a3, a4, a5]
       · have a5 : ¬ i - (S + v.length) < N - F' := by omega
         simp [a3, a4, a5]
+
+/-! ### linearity of the padding (C17.b) -/
+
+theorem sum_addL (a b : List ℚ) (h : a.length = b.length) : (Np.addL a b).sum = a.sum + b.sum := by
+  unfold Np.addL
+  induction a generalizing b with
+  | nil => cases b <;> simp_all
+  | cons x xs ih =>
+    cases b with
+    | nil => simp at h
+    | cons y ys =>
+      simp only [List.zipWith_cons_cons, List.sum_cons, ih ys (by simpa using h)]; ring
+
+theorem sum_scale (c : ℚ) (a : List ℚ) : (Np.scale c a).sum = c * a.sum := by
+  unfold Np.scale
+  induction a with
+  | nil => simp
+  | cons x xs ih => simp only [List.map_cons, List.sum_cons, ih]; ring
+
+theorem mean_addL (a b : List ℚ) (h : a.length = b.length) : mean (Np.addL a b) = mean a + mean b := by
+  unfold mean
+  rw [npSum_eq_sum, npSum_eq_sum, npSum_eq_sum, sum_addL a b h]
+  have : (Np.addL a b).length = a.length := by simp [Np.addL, h]
+  rw [this, ← h, add_div]
+
+theorem mean_scale (c : ℚ) (a : List ℚ) : mean (Np.scale c a) = c * mean a := by
+  unfold mean
+  rw [npSum_eq_sum, npSum_eq_sum, sum_scale]
+  have : (Np.scale c a).length = a.length := by simp [Np.scale]
+  rw [this, mul_div_assoc]
+
+theorem length_addL (a b : List ℚ) (h : a.length = b.length) : (Np.addL a b).length = a.length := by
+  simp [Np.addL, h]
+
+@[simp] theorem length_scale (c : ℚ) (a : List ℚ) : (Np.scale c a).length = a.length := by
+  simp [Np.scale]
+
+theorem pyTo_addL (a b : List ℚ) (h : a.length = b.length) (g : ℤ) :
+    pyTo (Np.addL a b) g = Np.addL (pyTo a g) (pyTo b g) := by
+  unfold pyTo
+  rw [length_addL a b h, ← h]
+  simp only [Np.addL, List.take_zipWith]
+
+theorem pyFrom_addL (a b : List ℚ) (h : a.length = b.length) (g : ℤ) :
+    pyFrom (Np.addL a b) g = Np.addL (pyFrom a g) (pyFrom b g) := by
+  unfold pyFrom
+  rw [length_addL a b h, ← h]
+  simp only [Np.addL, List.drop_zipWith]
+
+theorem pyTo_scale (c : ℚ) (a : List ℚ) (g : ℤ) : pyTo (Np.scale c a) g = Np.scale c (pyTo a g) := by
+  unfold pyTo
+  rw [length_scale]
+  simp only [Np.scale, List.map_take]
+
+theorem pyFrom_scale (c : ℚ) (a : List ℚ) (g : ℤ) : pyFrom (Np.scale c a) g = Np.scale c (pyFrom a g) := by
+  unfold pyFrom
+  rw [length_scale]
+  simp only [Np.scale, List.map_drop]
+
+theorem length_pyTo_eq (a b : List ℚ) (h : a.length = b.length) (g : ℤ) :
+    (pyTo a g).length = (pyTo b g).length := by simp [pyTo, h]
+
+theorem length_pyFrom_eq (a b : List ℚ) (h : a.length = b.length) (g : ℤ) :
+    (pyFrom a g).length = (pyFrom b g).length := by simp [pyFrom, h]
+
+/-- the padded array is additive in the record -/
+theorem butterPad_addL (v w : List ℚ) (mode : GibbsMode) (ge gr : ℕ) (h : v.length = w.length) :
+    butterPad (Np.addL v w) mode ge gr = Np.addL (butterPad v mode ge gr) (butterPad w mode ge gr) := by
+  by_cases hm : mode = .none
+  · subst hm; simp [butterPad]
+  · rw [butterPad_eq_append _ _ _ _ hm, butterPad_eq_append v _ _ _ hm, butterPad_eq_append w _ _ _ hm]
+    rw [length_addL v w h, ← h]
+    rw [pyTo_addL v w h, pyFrom_addL v w h, mean_addL _ _ (length_pyTo_eq v w h _),
+      mean_addL _ _ (length_pyFrom_eq v w h _)]
+    unfold Np.addL
+    rw [List.zipWith_append (by simp [h]), List.zipWith_append (by simp)]
+    simp [List.zipWith_replicate]
+
+/-- the padded array is homogeneous in the record -/
+theorem butterPad_scale (c : ℚ) (v : List ℚ) (mode : GibbsMode) (ge gr : ℕ) :
+    butterPad (Np.scale c v) mode ge gr = Np.scale c (butterPad v mode ge gr) := by
+  by_cases hm : mode = .none
+  · subst hm; simp [butterPad]
+  · rw [butterPad_eq_append _ _ _ _ hm, butterPad_eq_append v _ _ _ hm]
+    rw [length_scale, pyTo_scale, pyFrom_scale, mean_scale, mean_scale]
+    simp [Np.scale, List.map_append, List.map_replicate]
+
+theorem slice_addL (a b : List ℚ) (s f : ℕ) :
+    Np.slice (Np.addL a b) s f = Np.addL (Np.slice a s f) (Np.slice b s f) := by
+  simp [Np.slice, Np.addL, List.take_zipWith, List.drop_zipWith]
+
+theorem slice_scale (c : ℚ) (a : List ℚ) (s f : ℕ) :
+    Np.slice (Np.scale c a) s f = Np.scale c (Np.slice a s f) := by
+  simp [Np.slice, Np.scale, List.map_take, List.map_drop]
 
 end EqsigVerif.Model.Single
